@@ -217,7 +217,8 @@ class PathTracer:
             >>> g.trace.circle(center=(-10, 0))
         """
 
-        self.arc(self._g.position, center, **kwargs)
+        target = self._g.to_distance_mode(self._g.position)
+        self.arc(target, center, **kwargs)
 
     @typechecked
     def spline(self, targets: Sequence[PointLike], **kwargs) -> None:
